@@ -27,6 +27,7 @@ def find_scenario(mod, name):
 
 def main(mod, prop, path):
     rec = json.load(open(path))
+    rec['_path'] = path
     if hasattr(mod, 'replay'):
         return mod.replay(rec)
     scn = find_scenario(mod, rec['scenario']['name'])
